@@ -11,6 +11,7 @@ CONSTANTS
  Withs = {TRUE, FALSE}
  Chunks = {5}
  LyingSizes = TRUE
+ LieMax = 1
  InlineData = TRUE
  Conc = 3
  Probes = FALSE
@@ -19,6 +20,7 @@ CONSTANTS
  TarUnverified = FALSE
  MTs = {TRUE}
  DigestHdrs = {"served"}
+ Trailers = {FALSE}
  Sts = {"std"}
  DropKinds = {"ueof"}
 INIT Init
